@@ -15,7 +15,7 @@ REQUIRED = ['rr_def', 'rd_def', 'or_def', 'nnt_def', 'nnt_limits', 'irr_def', 'i
             'ird_swap', 'crosstab_filter', 'missing_counts', 'frame_eq_counts', 'rates_eq_counts',
             'personTime_complete', 'riskratio_level_generated', 'riskdifference_level_generated', 'nnt_level_generated',
             'oddsratio_level_generated', 'irr_level_generated', 'ird_level_generated', 'risk_level_generated',
-            'rate_level_generated', 'missing_generated', 'frechet_counts_generated', 'frame_generated_eq_counts']
+            'rate_level_generated', 'missing_generated', 'frame_generated_eq_counts']
 RULE = ('count tables: exhaustive over cells 1..B (B=5 quick, 9 thorough) for the six 4-argument calculators, plus a '
         'malformed stream (zero / negative cells in every position) and random large tables; frames: random data '
         'frames with 2-4 exposure levels, every reference level, random missingness in exposure/outcome/time. '
